@@ -3,6 +3,8 @@ package main
 
 import (
 	"fmt"
+	"io"
+	"log"
 	"os"
 	"path/filepath"
 
@@ -39,6 +41,8 @@ func main() {
 		os.Exit(3)
 	}
 	f := hx.ParseFlags(os.Args[2:])
+	// net/http and httputil report aborted handlers through the std logger: keep stdout/stderr for verdicts
+	log.SetOutput(io.Discard)
 	hx.QuietPikeLog(filepath.Join(f.Scratch, "pike-inproc.log"))
 	r := hx.NewRun(id, c.level, f)
 	c.fn(r)
